@@ -26,7 +26,7 @@ from .ops import Unsupported, truth, b2v, i2v, zint, zbool, zseq, to_val, to_vl,
 # ---------------------------------------------------------------------------------------------
 import re
 INTERNAL_TRACE = re.compile(r"\b(n_callees|callee_arg|callee_result|n_events|n_ev|all_calls_from_callee|all_getattr_on|"
-                            r"n_requests|request_kind|request_conn|request_args|request_result|n_ops|op_name|op_target|op_args|op_result|n_local|ev_val|ev_raised|ev_arg)\b")
+                            r"n_requests|request_kind|request_conn|request_args|request_result|n_ops|op_name|op_target|op_args|op_result|n_local|ev_val|ev_raised|ev_arg|shutdown_attempted_on)\b")
 
 
 class CheckerError(Exception):
@@ -981,6 +981,28 @@ class Executor(object):
                     nxt.extend(self.assign(st2, t, SVal(x)) if o is None else [(st2, o)])
                 outs = nxt
             res.extend(outs)
+            if self.cur[0].dynamic_errors:
+                # a heap object (the result of unknown code): iterating it runs its own code - one ghost Op event; it yields n
+                # arbitrary items, or the unpacking fails
+                ref = st.fork().assume(Val.is_VRef(z)).label("L%d:unpack%d of an object" % (self.rel_line(target), n))
+                if self.feasible(ref):
+                    relems = [SVal(fresh("unpacked", Val)) for _ in range(n)]
+                    self.type_invariants(ref, relems)
+                    ref.trace.append(("Op", "unpack", z, VL.nil, Val.VTuple(to_vl(relems))))
+                    o2 = [(ref, None)]
+                    for t, x in zip(target.elts, relems):
+                        nxt = []
+                        for st2, o in o2:
+                            nxt.extend(self.assign(st2, t, x) if o is None else [(st2, o)])
+                        o2 = nxt
+                    res.extend(o2)
+                    for cls in (TypeError, ValueError, AnyException, AnyBaseException):
+                        b = st.fork().assume(Val.is_VRef(z)).label("L%d:unpack raises %s" % (self.rel_line(target), cls.__name__))
+                        b.trace.append(("Op", "unpack", z, VL.nil, "raise"))
+                        res.append((b, Raised(cls, ExcObj(cls, info={"dynamic": True}))))
+                bad = st.fork().assume(z3.And(z3.Not(ok), z3.Not(Val.is_VRef(z)))).label("L%d:unpack-fails" % self.rel_line(target))
+                res.extend(self.lib.unpack_failure(self, bad, v, n))
+                return res
             bad = st.fork().assume(z3.Not(ok)).label("L%d:unpack-fails" % self.rel_line(target))
             res.extend(self.lib.unpack_failure(self, bad, v, n))
             return res
@@ -1444,7 +1466,8 @@ class Executor(object):
                                     props=lc.get("props", self.all_props(self.cur[1])), kind="inv",
                                     note="a loop whose contract does not describe the ghost events of an iteration must not have any")
                     for i, be in enumerate(lc.get("body_events", [])):
-                        z, facts = self.spec_bool(st2, self.pre_state, be, self.spec_scope(st2))
+                        # `item` names the element this iteration visits, whatever the loop variable is called
+                        z, facts = self.spec_bool(st2, self.pre_state, be, self.spec_scope(st2, {"item": SVal(VL.hd(rest.z))}))
                         self.oblige(st2, "inv-body-events:%d@loop%d[%s]" % (i, k, self.path_label(st2)), z,
                                     props=lc.get("props", self.all_props(self.cur[1])), kind="inv", extra_hyps=facts,
                                     note="ghost events of one iteration")
